@@ -20,6 +20,10 @@ func Select(hasDefault bool, chans ...interface{}) (int, interface{}, bool) {
 		// plain blocking select outside a world
 		cases := make([]reflect.SelectCase, 0, len(chans)+1)
 		for _, c := range chans {
+			if sc, ok := c.(SendCase); ok {
+				cases = append(cases, reflect.SelectCase{Dir: reflect.SelectSend, Chan: reflect.ValueOf(sc.Ch), Send: sendValue(sc)})
+				continue
+			}
 			cases = append(cases, reflect.SelectCase{Dir: reflect.SelectRecv, Chan: reflect.ValueOf(c)})
 		}
 		if hasDefault {
@@ -40,14 +44,74 @@ func Select(hasDefault bool, chans ...interface{}) (int, interface{}, bool) {
 		ok  bool
 	}
 	var g *got
-	try := func() bool {
+	var mine []*pendingSend // sends of this select which wait for a receiver (no default clause)
+	var recvKeys []uintptr  // channels this select waits to receive from (no default clause)
+	settled := false
+	// settle: the select has its case - it neither waits for a value nor offers one any longer
+	settle := func() {
+		if settled {
+			return
+		}
+		settled = true
+		for _, k := range recvKeys {
+			waitingRecv[k]--
+		}
+		for _, ps := range mine {
+			if !ps.taken {
+				withdraw(ps)
+			}
+		}
+	}
+	var try func() bool
+	try0 := func() bool {
 		if g != nil {
 			return true
 		}
+		for _, ps := range mine {
+			if ps.taken {
+				g = &got{ps.idx, nil, false}
+				return true
+			}
+		}
 		for i, c := range chans {
+			if sc, isSend := c.(SendCase); isSend {
+				cv := reflect.ValueOf(sc.Ch)
+				if !cv.IsValid() || cv.IsNil() {
+					continue
+				}
+				k := cv.Pointer()
+				if cv.Cap() == 0 && len(mine) > 0 {
+					continue // offered already: done when a receiver has taken it
+				}
+				if cv.Cap() > 0 {
+					if cv.Len() < cv.Cap() && cv.TrySend(sendValue(sc)) {
+						g = &got{i, nil, false}
+						return true
+					}
+					continue
+				}
+				// unbuffered: a receiver which waits takes the value (the hand-over goes through the scheduler)
+				if waitingRecv[k]-untakenHandovers(k) > 0 {
+					pendingSends[k] = append(pendingSends[k], &pendingSend{v: sendValue(sc), handover: true})
+					g = &got{i, nil, false}
+					return true
+				}
+				continue
+			}
 			cv := reflect.ValueOf(c)
 			if !cv.IsValid() || cv.IsNil() {
 				continue
+			}
+			if q := pendingSends[cv.Pointer()]; len(q) > 0 {
+				ps := q[0]
+				pendingSends[cv.Pointer()] = q[1:]
+				ps.taken = true
+				var iv interface{}
+				if ps.v.IsValid() && ps.v.CanInterface() {
+					iv = ps.v.Interface()
+				}
+				g = &got{i, iv, true}
+				return true
 			}
 			v, ok := cv.TryRecv()
 			if v.IsValid() || ok {
@@ -62,25 +126,144 @@ func Select(hasDefault bool, chans ...interface{}) (int, interface{}, bool) {
 		}
 		return false
 	}
+	try = func() bool {
+		if try0() {
+			settle()
+			return true
+		}
+		return false
+	}
 	if hasDefault {
 		Point("select", nil, nil)
 		if try() {
-			w.running.vc.join(chanClock(chans[g.idx]))
+			if sc, isSend := chans[g.idx].(SendCase); isSend {
+				NoteSend(sc.Ch)
+			} else {
+				w.running.vc.join(chanClock(chans[g.idx]))
+			}
 			return g.idx, g.v, g.ok
 		}
 		return -1, nil, false
 	}
-	Point("select", nil, try)
+	// blocking: receives of this select wait (a sender may hand a value over), sends on unbuffered channels are
+	// offered to whoever receives next
+	for i, c := range chans {
+		if sc, isSend := c.(SendCase); isSend {
+			cv := reflect.ValueOf(sc.Ch)
+			if cv.IsValid() && !cv.IsNil() && cv.Cap() == 0 {
+				NoteSend(sc.Ch)
+				ps := &pendingSend{v: sendValue(sc), idx: i}
+				mine = append(mine, ps)
+				pendingSends[cv.Pointer()] = append(pendingSends[cv.Pointer()], ps)
+			}
+			continue
+		}
+		cv := reflect.ValueOf(c)
+		if cv.IsValid() && !cv.IsNil() {
+			recvKeys = append(recvKeys, cv.Pointer())
+			waitingRecv[cv.Pointer()]++
+		}
+	}
+	// a thread which waits in a pure send is blocked like one which waits for a lock (nobody but another thread can
+	// help it); one which also waits to receive may be a loop fed by a timer
+	opName := "send"
+	for _, c := range chans {
+		if _, isSend := c.(SendCase); !isSend {
+			opName = "select"
+		}
+	}
+	Point(opName, nil, try)
 	if g == nil {
 		// enabled() is only evaluated for other threads' hand-offs; evaluate now
 		if !try() {
+			settle()
 			panic("vsched: select resumed without a ready case")
 		}
 	}
-	if !w.cfg.NoRace {
+	settle()
+	if _, isSend := chans[g.idx].(SendCase); !isSend && !w.cfg.NoRace {
 		w.running.vc.join(chanClock(chans[g.idx]))
 	}
 	return g.idx, g.v, g.ok
+}
+
+// SendCase is a send case of a select (or a send statement): the value v goes to channel Ch.
+type SendCase struct {
+	Ch interface{}
+	V  interface{}
+}
+
+func sendValue(sc SendCase) reflect.Value {
+	et := reflect.TypeOf(sc.Ch).Elem()
+	if sc.V == nil {
+		return reflect.Zero(et)
+	}
+	v := reflect.ValueOf(sc.V)
+	if v.Type() != et && v.Type().ConvertibleTo(et) {
+		v = v.Convert(et)
+	}
+	return v
+}
+
+// pendingSend: a value on its way through an unbuffered channel. Threads of a world never sit in a real channel
+// operation (the scheduler would not know), so the rendezvous goes through this table: a sender which waits leaves its
+// value here until a receiver takes it; a sender which found a receiver waiting leaves it as a hand-over.
+type pendingSend struct {
+	v        reflect.Value
+	idx      int
+	taken    bool
+	handover bool
+}
+
+var pendingSends = map[uintptr][]*pendingSend{}
+var waitingRecv = map[uintptr]int{}
+
+func untakenHandovers(k uintptr) int {
+	n := 0
+	for _, ps := range pendingSends[k] {
+		if ps.handover && !ps.taken {
+			n++
+		}
+	}
+	return n
+}
+
+func withdraw(ps *pendingSend) {
+	for k, q := range pendingSends {
+		for i, x := range q {
+			if x == ps {
+				pendingSends[k] = append(append([]*pendingSend{}, q[:i]...), q[i+1:]...)
+				return
+			}
+		}
+	}
+}
+
+// Send is the statement `ch <- v`.
+func Send(ch interface{}, v interface{}) {
+	Select(false, SendCase{Ch: ch, V: v})
+}
+
+// SendT / Recv1 / Recv2 / ValOf: typed wrappers the instrumenter puts in place of channel operations (the element
+// type is inferred from the channel).
+func SendT[T any](ch chan<- T, v T) { Select(false, SendCase{Ch: ch, V: v}) }
+
+func Recv1[T any](ch <-chan T) T {
+	_, v, _ := Select(false, ch)
+	return ValOf(ch, v)
+}
+
+func Recv2[T any](ch <-chan T) (T, bool) {
+	_, v, ok := Select(false, ch)
+	return ValOf(ch, v), ok
+}
+
+func ValOf[T any](ch <-chan T, v interface{}) T {
+	if v == nil {
+		var z T
+		return z
+	}
+	return v.(T)
 }
 
 // channel clocks: release on send/close by scheduler-side senders.
@@ -110,7 +293,11 @@ func Close(c interface{}) {
 	reflect.ValueOf(c).Close()
 }
 
-func resetChanClocks() { chanVC = map[uintptr]vclock{} }
+func resetChanClocks() {
+	chanVC = map[uintptr]vclock{}
+	pendingSends = map[uintptr][]*pendingSend{}
+	waitingRecv = map[uintptr]int{}
+}
 
 // RangeKeys returns the keys of m in a deterministic order (sorted by their
 // printed form). Instrumented `range` loops over maps iterate this slice, so
